@@ -91,7 +91,8 @@ def run(ck):
             elif k == 5:
                 ops.append((r.choice([["cli", "-", "-edi", "x"], ["cli", "-", "-en", "-q"], ["cli", "-", "-evi", "{D}/p.bin"], ["cli", "-", "-dnk"]]), "parse-aborted-in-cluster"))
             elif k == 6:
-                ops.append((r.choice([["cli", "-", "-q"], ["cli", "-", "-e"], ["cli", "-", "-e", "-d", "-i", "{D}/p.bin"], ["cli", "-", "-e", "-i", "{D}/missing"], ["cli", "-", "-e", "-i", "{D}/p.bin", "-k", "notakey"], ["cli", "-", "--input"], ["cli", "-", "-V"], ["cli", "-", "-h"]]), "parse-fails-or-info"))
+                ops.append((r.choice([["cli", "-", "-q"], ["cli", "-", "-e"], ["cli", "-", "-e", "-d", "-i", "{D}/p.bin"], ["cli", "-", "-e", "-i", "{D}/missing"], ["cli", "-", "-e", "-i", "{D}/p.bin", "-k", "notakey"], ["cli", "-", "--input"], ["cli", "-", "-V"], ["cli", "-", "-h"],
+                                     ["cli", "-", "-e", "-i", "{D}/p.bin", "--cmode", "99999999999999999999"], ["cli", "-", "-e", "-i", "{D}/p.bin", "--hmode", "-99999999999999999999"]]), "parse-fails-or-info"))
             elif k == 7:
                 ops.append((["dec", str(T), key.hex(), wv.hexs(rnd_bytes(r, r.choice([0, 7, 30, 74, 100])))], "api-dec-garbage"))
             elif k == 8:
@@ -130,6 +131,10 @@ def run(ck):
         if h % 3 == 1:
             for _ in range(2):
                 ops.insert(r.randrange(0, len(ops) + 1), (["enc", str(r.randrange(1, 5)), str(r.randrange(3)), str(r.choice([2, 3, 4])), key.hex(), hseed.hex(), wv.hexs(rnd_bytes(r, 2 * CH + 5))], "api-enc-same-key-and-seed-buffers"))
+        if h % 4 == 2:
+            # a rejected command line whose number overflows (leaves errno = ERANGE behind), later a valid option-driven encryption
+            ops.insert(0, (["cli", "-", "-e", "-i", "{D}/p.bin", r.choice(["--cmode", "--hmode"]), "99999999999999999999"], "parse-fails-or-info"))
+            ops.append((["cli", "{D}/z%d.wenc" % h, "-e", "-i", "{D}/p.bin", "-k", b64(key), "-o", "{D}/z%d.wenc" % h, "--cmode", str(r.randrange(5)), "--hmode", str(r.randrange(3)), "-n"], "cli-enc"))
         hist_ops[h] = ops
         lines.append("h%d hist %s" % (h, ";".join(",".join(f.replace("{D}", dirs["hist"]) for f in fields) for fields, _ in ops)))
         for i, (fields, _) in enumerate(ops):
